@@ -514,6 +514,9 @@ func (e *Exec) execRange(s *ast.RangeStmt, label string, st *State, ctx *Ctx, k 
 		if kind == rkInt {
 			e.setGhost(nx, li, "idx", "(+ "+idx+" 1)")
 		}
+		if idx != "" {
+			nx.ghosts["idx@iter"] = idx // the index of the iteration that just ended (for transition clauses)
+		}
 		e.checkInvs(nx, li, "step", ctx)
 	}
 	lctx := ctx.with(label, func(st2 *State) { k(st2) }, endIter)
